@@ -78,7 +78,9 @@ fn run_tool(tool: &str, args: &[String], stdin_data: &[u8], how: OutArg, timeout
     if k % 3 != 2 { return run_capture(&bin(tool), args, stdin_data, timeout_s); }
     let dir = scratch();
     // the file name itself may contain characters that mean something inside the generated text
-    let outp = if k % 2 == 0 { format!("{}/out_{}.txt", dir, tool) } else { format!("{}/out \"{}\" & [x].txt", dir, tool) };
+    // … or begin with a number (a size, a count) that has nothing to do with the request
+    let outp = if k % 5 == 2 { format!("{}/{}_{}.txt", dir, 3 + k % 9, tool) }
+        else if k % 2 == 0 { format!("{}/out_{}.txt", dir, tool) } else { format!("{}/out \"{}\" & [x].txt", dir, tool) };
     if k % 9 == 2 || !std::path::Path::new(&outp).exists() {
         // a long earlier content
         let _ = std::fs::write(&outp, "\"stale\" v_0 & ".repeat(4000));
@@ -125,12 +127,18 @@ pub fn c15(out: &mut dyn Write, tier: &str, _rng: &mut Rng, st: &mut Stats) {
     if tier == "thorough" { ns.extend(13..=40); ns.extend_from_slice(&[64, 100, 128, 254, 257, 400, 1000]); }
     // … then smaller boards written into the file that holds a larger board whose size begins with the same digits
     // (10 then 1, 12 then 1, 20 then 2, 40 then 4), and the same size twice
-    let mut plan: Vec<(usize, bool)> = ns.iter().map(|n| (*n, false)).collect();
-    for n in [10usize, 1, 12, 1, 20, 2, 40, 4, 4, 3] { plan.push((n, true)); }
+    let mut plan: Vec<(usize, Option<String>)> = ns.iter().map(|n| (*n, None)).collect();
     let revisit = format!("{}/queens_revisit.txt", scratch());
     let _ = std::fs::remove_file(&revisit);
-    for (n, same_file) in plan {
-        let (class, stdout, _) = if same_file {
+    for n in [10usize, 1, 12, 1, 20, 2, 40, 4, 4, 3] { plan.push((n, Some(revisit.clone()))); }
+    // … and output files whose names begin with another board size than the one asked for (the default 4 given explicitly)
+    for (n, name) in [(4usize, "5_queens.txt"), (4, "4_queens.txt"), (5, "4_board.txt"), (4, "6_x.txt"), (3, "queens_7.txt")] {
+        let p = format!("{}/{}", scratch(), name);
+        let _ = std::fs::remove_file(&p);
+        plan.push((n, Some(p)));
+    }
+    for (n, to_file) in plan {
+        let (class, stdout, _) = if let Some(revisit) = to_file {
             let (class, so, se) = run_capture(&bin("n_queens_gen"), &["-n".into(), n.to_string(), revisit.clone()], &[], 300);
             st.hit("n_queens_gen.revisit-file");
             if class == "ok" { (class, std::fs::read(&revisit).unwrap_or_default(), se) } else { (class, so, se) }
@@ -242,8 +250,11 @@ pub fn c16(out: &mut dyn Write, tier: &str, rng: &mut Rng, st: &mut Stats) {
         st.hit("graph.twelve-or-more-vertices");
         cases.push((edges, rng.chance(1, 2), true));
     }
-    for (edges, u, a) in cases {
-        let csv: String = edges.iter().map(|(x, y)| format!("{},{}\n", x, y)).collect();
+    for (ci, (edges, u, a)) in cases.into_iter().enumerate() {
+        // the input: LF or CR LF line endings, with or without the final one
+        let eol = if ci % 5 == 3 { "\r\n" } else { "\n" };
+        let mut csv: String = edges.iter().map(|(x, y)| format!("{},{}{}", x, y, eol)).collect();
+        if ci % 7 == 2 && csv.ends_with(eol) { csv.truncate(csv.len() - eol.len()); }
         let mut args: Vec<String> = Vec::new();
         if u { args.push("-u".into()); }
         if a { args.push("-a".into()); }
@@ -327,7 +338,7 @@ pub fn c17(out: &mut dyn Write, tier: &str, rng: &mut Rng, st: &mut Stats) {
         if rng.chance(1, 4) { let keep_chars = rng.below(s.chars().count() as u64 + 1) as usize; s = s.chars().take(keep_chars).collect(); }
         cases.push((2, s));
     }
-    for p in ["1234\n34", "12343", "1", "12", "123412", "1234341221", ".2.4.1", "1...\u{b}..2.\u{b}.3..\u{b}...4", "1\u{a0}.\u{a0}.\u{a0}2", "\u{3000}12\u{2028}34", "12..\n....\n\n....\n..12\n", "\n1234\n\n\n3412"] { cases.push((2, p.to_string())); }
+    for p in ["12..\r\n34..\r\n....\r\n....\r\n", "1 2 3 4\r3 4 1 2\r2 1 4 3\r4 3 2 1", "1234\n34", "12343", "1", "12", "123412", "1234341221", ".2.4.1", "1...\u{b}..2.\u{b}.3..\u{b}...4", "1\u{a0}.\u{a0}.\u{a0}2", "\u{3000}12\u{2028}34", "12..\n....\n\n....\n..12\n", "\n1234\n\n\n3412"] { cases.push((2, p.to_string())); }
     // texts that begin with a character an editor may put there invisibly (byte-order mark, zero-width space, word joiner):
     // not a digit and not whitespace, so a blank in cell 0; several of them, so that some reach the tool as INPUT file
     for lead in ['\u{feff}', '\u{200b}', '\u{2060}', '\u{feff}', '\u{feff}', '\u{200b}'] {
@@ -436,7 +447,10 @@ pub fn c18(out: &mut dyn Write, tier: &str, rng: &mut Rng, st: &mut Stats) {
         let names = if i % 10 == 5 { &names_concat } else if i % 10 == 9 { &names_concat2 } else if i % 4 >= 2 { &names_prefix } else { &names_plain };
         let k = if i % 10 == 5 || i % 10 == 9 { 4 + rng.below(2) as usize } else { k };
         let edges: Vec<(String, String)> = (0..m).map(|_| (names[rng.below(k as u64) as usize].to_string(), names[rng.below(k as u64) as usize].to_string())).collect();
-        let csv: String = edges.iter().map(|(a, b)| format!("{},{}\n", a, b)).collect();
+        // the input file: LF or CR LF line endings, with or without the final one
+        let eol = if i % 5 == 3 { "\r\n" } else { "\n" };
+        let mut csv: String = edges.iter().map(|(a, b)| format!("{},{}{}", a, b, eol)).collect();
+        if i % 7 == 2 && csv.ends_with(eol) { csv.truncate(csv.len() - eol.len()); }
         std::fs::write(&path, csv).unwrap();
         if i % 2 == 0 {
             let u = rng.chance(1, 2);
@@ -460,7 +474,7 @@ pub fn c18(out: &mut dyn Write, tier: &str, rng: &mut Rng, st: &mut Stats) {
         } else {
             // colouring problems are about simple graphs: no self-loops
             let simple: Vec<(String, String)> = edges.iter().filter(|(a, b)| a != b).cloned().collect();
-            let csv: String = simple.iter().map(|(a, b)| format!("{},{}\n", a, b)).collect();
+            let csv: String = simple.iter().map(|(a, b)| format!("{},{}{}", a, b, eol)).collect();
             std::fs::write(&path, csv).unwrap();
             let kcol = if many_colours { st.hit("colors.ten-or-more"); 10 + rng.below(4) as usize } else { rng.below(4) as usize };
             let args = vec!["--convert".to_string(), path.clone(), "--colors".to_string(), kcol.to_string()];
